@@ -7,6 +7,7 @@ import (
 	"io"
 	"os"
 	"path/filepath"
+	"sort"
 	"strings"
 	"sync"
 	"time"
@@ -33,7 +34,7 @@ func init() {
 			"client side: hostile responses (mutated, truncated, reset) read by the real HostClient incl. redirects, Set-Cookie and Location parsing; only panics and hangs are judged there",
 			"a parse-level rejection is recognised as: last response on the connection is 400/413/408, no handler ran for it and Engine.Serve returned a non-nil error",
 		},
-		RequiredProbes: []string{"mut-flip", "mut-insert", "mut-delete", "mut-dup", "mut-token", "truncate", "rst", "rejected", "too-large", "too-large-multipart", "too-large-chunked", "hostile-chunk-size", "fs-route", "multipart", "cookie", "trailer", "recovery-engine", "default-engine", "client-side", "huge-body", "router-mode", "route-request", "forwarded-prefix", "redirected"},
+		RequiredProbes: []string{"mut-flip", "mut-insert", "mut-delete", "mut-dup", "mut-token", "truncate", "rst", "rejected", "too-large", "too-large-multipart", "too-large-chunked", "hostile-chunk-size", "fs-route", "multipart", "cookie", "trailer", "recovery-engine", "default-engine", "client-side", "invalid-content-length", "trailer-zero-name", "huge-body", "router-mode", "route-request", "forwarded-prefix", "redirected"},
 	}
 }
 
@@ -69,7 +70,7 @@ func c03FSRoot() string {
 }
 
 var hostileTokens = map[string][]string{
-	"Trailer":           {"a,,b", ",", "a, ,b", ",a", "Content-Length", "", " ", "a,"},
+	"Trailer":           {"a,,b", ",", "a, ,b", ",a", "Content-Length", "", " ", "a,", "Foo,\r\n c", "a,\r\n\tco", "Foo, \r\n conten", "X-T,\r\n c,", "c"},
 	"Cookie":            {"a=b; ;c=d", ";", "=; =", "a=b;; SameSite=", "a=\"b", "; SameSite=", "a"},
 	"Range":             {"bytes=-1", "bytes=9-1", "bytes=-0", "bytes=0-", "bytes=", "bytes=-", "bytes=a-b", "bytes=99999999999999999999-", "bytes=0-0,1-1", "=", "bytes=-99999999999999999999", "bytes=5-99999999999999999999"},
 	"If-Modified-Since": {"Mon", "", "Sat, 01 Jan 2000 00:00:00 GMT", "0", "Sat, 99 Jan 2000 99:99:99 GMT", "Sat, 01 Jan 99999 00:00:00 GMT"},
@@ -254,6 +255,8 @@ func RunC03(ep *core.Episode) {
 	var bounds []int
 	var methods []string
 	tooLargeAt := -1
+	zeroTrailer := false
+	badCLAt := -1 // request carrying a syntactically invalid Content-Length (and no Transfer-Encoding)
 	for i := 0; i < n; i++ {
 		m := &wire.Msg{Proto: "HTTP/1.1", Method: "GET", Target: fmt.Sprintf("/p%d?a=1&b=%%20x&c", i)}
 		m.Headers = []wire.Header{{K: "Host", V: "example.com"}}
@@ -286,6 +289,14 @@ func RunC03(ep *core.Episode) {
 			m.ChunkSizes = splitChunks(tp, len(m.Body))
 			m.Headers = append(m.Headers, wire.Header{K: "Trailer", V: "X-T"})
 			m.Trailers = []wire.Header{{K: "X-T", V: "tv"}}
+			if router || huge {
+				// (drawn only in the modes added later) a trailer field whose name starts like a last-chunk line
+				tn := []string{"0-Sum", "0", "00", "0x"}[tp.Choose("trailername", 4)]
+				m.Headers[len(m.Headers)-1].V = tn
+				m.Trailers = []wire.Header{{K: tn, V: "tv"}}
+				zeroTrailer = true
+				ep.Probe("trailer-zero-name")
+			}
 			ep.Probe("trailer")
 		case 5: // body around the limit: plain, multipart or chunked
 			m.Method = "POST"
@@ -387,10 +398,28 @@ func RunC03(ep *core.Episode) {
 				if k == "Content-Length" && len(m.Body) > 0 && !m.Chunked {
 					m.NoFraming = true
 					m.Headers = append(m.Headers, wire.Header{K: k, V: v})
+					if strings.TrimSpace(v) != "5" && badCLAt < 0 {
+						badCLAt = i
+						ep.Probe("invalid-content-length")
+					}
+					if router || huge {
+						// (later modes only) a perfectly valid header behind the invalid one
+						if tp.Choose("afterbadcl", 2) == 1 {
+							m.Headers = append(m.Headers, wire.Header{K: "Trailer", V: "X-T"})
+						}
+					}
 				}
 			}
 		}
 		b, bs := m.Encode()
+		if zeroTrailer && m.Chunked {
+			// reads that end right behind the last-chunk line and one or two bytes into the trailer section
+			if t := bytes.LastIndex(b, []byte("\r\n0\r\n")); t >= 0 {
+				bs = append(bs, t+5, t+6, t+7)
+				sort.Ints(bs)
+			}
+			zeroTrailer = false
+		}
 		if m.Chunked && ep.Param("tokens") != "off" && tp.Chance("chunktoken", 1, 4) {
 			// replace the first chunk-size line by a hostile one
 			head := bytes.Index(b, []byte("\r\n\r\n")) + 4
@@ -532,6 +561,23 @@ func RunC03(ep *core.Episode) {
 				st = cl.Resps[tooLargeAt].Status
 			}
 			ep.Fail("C03.reject-missing", "request %d has a body over MaxRequestBodySize but was answered with %d (responses %s)", tooLargeAt, st, respSummary(cl))
+			return
+		}
+	}
+	// RFC 7230 3.3.3: a Content-Length that is not a number (and no Transfer-Encoding) is an unrecoverable framing error: 400 and close
+	if badCLAt >= 0 && len(mdesc) == 0 && endKind == 0 && tooLargeAt < 0 {
+		ok := true
+		for k := 0; k < badCLAt && k < nresp; k++ {
+			if cl.Resps[k].Status/100 != 2 && cl.Resps[k].Status/100 != 3 {
+				ok = false // an earlier request already ended the connection
+			}
+		}
+		if ok && (nresp <= badCLAt || cl.Resps[badCLAt].Status != 400) {
+			st := 0
+			if nresp > badCLAt {
+				st = cl.Resps[badCLAt].Status
+			}
+			ep.Fail("C03.reject-missing", "request %d carries an invalid Content-Length and no Transfer-Encoding but was answered with %d (responses %s)", badCLAt, st, respSummary(cl))
 			return
 		}
 	}
